@@ -63,4 +63,21 @@ CHECKS = {
         note="Trusted base: the lexers in vf/lex.py. Library-level literalinclude/literalinclude2 are removed from the "
              "subjects, as the property excludes them.",
     ),
+    "C15": dict(
+        level="exploration",
+        technique="metamorphic property-based testing: Hypothesis-drawn wrapper-flag combinations, directory "
+                  "assignments and per-declaration overrides judged against single-language reference runs",
+        design_ref="DESIGN.md section 4, C15",
+        text="For generated libraries (unique function names) and corpus entries, every drawn combination of wrap_c/"
+             "fortran/python/lua, assignment of the output-directory options and per-declaration switch-off is run; "
+             "files are classified by single-language reference runs with all directories distinct. Checked: an "
+             "off language writes nothing; every file lies in its designated directory and every expected file is "
+             "there; --cfiles/--ffiles equal the C/C++ and Fortran files present; a python/lua toggle leaves C/Fortran "
+             "bytes unchanged; a switched-off declaration is absent from and a switched-on one present in that "
+             "language's comment-free tokens.",
+        note="File kinds are learnt from reference runs of the same tree (so a whole kind consistently written to another "
+             "directory is only noticed for the explicit rules: off-language directories empty, only setup.py in "
+             "--outdir). With wrap_fortran off but wrap_c on, the bind(C) interface of the C wrapper may remain in the "
+             "module; only the Fortran wrapper procedure must be gone.",
+    ),
 }
